@@ -30,20 +30,21 @@ theorem src_guards_strict :
   refine ⟨fun hard st => ?_, fun hard => ?_⟩ <;> cases hard <;> rfl
 
 open VaxisModel.Gen.SurfaceFacts in
-/-- The shape-fixed facts of vxfw.go, center.go and textfield.go the model transcribes. -/
+/-- The shape-fixed facts of vxfw.go, center.go and textfield.go the model transcribes (K/E = range
+key/value, L0,L1,… = the other locals in order of declaration: renaming a variable changes nothing). -/
 theorem facts_surface :
     newSurfaceLen = "(int(P1)*int(P0))" ∧
     writeCellReject = ["(P0>=R.Size.Width)", "(P1>=R.Size.Height)"] ∧
     writeCellIndex = "((int(P1)*int(R.Size.Width))+int(P0))" ∧
-    renderFacts = ["range R.Buffer", "row:=(K/int(R.Size.Width))", "col:=(K%int(R.Size.Width))", "P0.SetCell(col,row,E)",
-      "sort.Slice R.Children", "less (R.Children[K].ZIndex<R.Children[j].ZIndex)", "range R.Children",
-      "childWin:=P0.New(int(E.Origin.Col),int(E.Origin.Row),int(E.Surface.Size.Width),int(E.Surface.Size.Height))",
-      "E.Surface.render(childWin,P1)"] ∧
+    renderFacts = ["range R.Buffer", "L0:=(K/int(R.Size.Width))", "L1:=(K%int(R.Size.Width))", "P0.SetCell(L1,L0,E)",
+      "sort.Slice R.Children", "less (R.Children[K].ZIndex<R.Children[L2].ZIndex)", "range R.Children",
+      "L3:=P0.New(int(E.Origin.Col),int(E.Origin.Row),int(E.Surface.Size.Width),int(E.Surface.Size.Height))",
+      "E.Surface.render(L3,P1)"] ∧
     centerFacts = ["panic if (P0.Max.HasUnboundedHeight()||P0.Max.HasUnboundedWidth())", "child ctx Max:P0.Max",
-      "s:=vxfw.NewSurface(P0.Max.Width,P0.Max.Height,R)", "offX:=((P0.Max.Width-chS.Size.Width)/2)",
-      "offY:=((P0.Max.Height-chS.Size.Height)/2)", "s.AddChild(int(offX),int(offY),chS)"] ∧
+      "L3:=vxfw.NewSurface(P0.Max.Width,P0.Max.Height,R)", "L4:=((P0.Max.Width-L1.Size.Width)/2)",
+      "L5:=((P0.Max.Height-L1.Size.Height)/2)", "L3.AddChild(int(L4),int(L5),L1)"] ∧
     textFieldFacts = ["if ((P0.Max.Width==0)||(P0.Max.Height==0))", "vxfw.NewSurface(P0.Max.Width,1,R)",
-      "s.WriteCell(col,0,cell)", "col+=uint16(char.Width)", "i+=1"] := by
+      "L0.WriteCell(L2,0,L7)", "L2+=uint16(L6.Width)", "L1+=1"] := by
   decide +kernel
 
 /-- The extractor recognised every shape it looks for in the vxfw sources. -/
@@ -279,6 +280,29 @@ theorem center_fits_src (child : Widget) (c : Ctx) (hb : bounded c)
     simp only [drawWith, guard_center, hbB, hch]
     rfl
   · exact absurd hna (by rw [ha]; simp)
+
+/-- Button is a Center around its soft-wrapped label: for every bounded constraint and every label
+the label surface lies inside the button's `Max.Width × Max.Height` surface, margins within one, and
+is its only child (current source). -/
+theorem button_fits_src (st : Nat) (lines : List (List Cell)) (c : Ctx) (hb : bounded c) :
+    ∃ ch s col row,
+      drawText srcArith (textMode false st) { minW := 0, minH := 0, maxW := c.maxW, maxH := c.maxH } lines = .ok ch ∧
+      draw (.button st lines) c = .ok s ∧ s.kids = .cons col row 0 ch .nil ∧
+      s.w = c.maxW ∧ s.h = c.maxH ∧
+      Spec.Surface.centred s.w.toNat s.h.toNat ch.w.toNat ch.h.toNat col row := by
+  have hbB : boundedB c = true := (boundedB_iff c).2 hb
+  rw [src_arith_exact]
+  obtain ⟨ch, hch, hw, hh, _⟩ := size_le_max_text (textMode false st) (src_guards_strict.1 false st)
+    { minW := 0, minH := 0, maxW := c.maxW, maxH := c.maxH } lines
+  obtain ⟨col, row, hk, hsw, hsh, hcen⟩ := center_fits exact c ch hw hh
+  have q := setBuf_dims (centerAround exact c ch) ((centerAround exact c ch).buf.map fun x => { x with st := st })
+  refine ⟨ch, fillStyle (centerAround exact c ch) st, col, row, hch, ?_, ?_, ?_, ?_, ?_⟩
+  · simp only [draw, src_arith_exact, drawWith, guard_button, hbB, hch]
+    rfl
+  · simp only [fillStyle, q.2.2.1, hk]
+  · simp only [fillStyle, q.1, hsw]
+  · simp only [fillStyle, q.2.1, hsh]
+  · simp only [fillStyle, q.1, q.2.1, hsw, hsh]; exact hcen
 
 /-! ## Painting -/
 
